@@ -112,6 +112,7 @@ func (u *Unit) call(f *Frame, st *State, cc *ssa.CallCommon, res ssa.Value, pos 
 		icon := u.ctx.contractFor(callee)
 		if (n > 40 || hasLoop(callee)) && !(icon != nil && icon.Inline && !hasLoop(callee)) {
 			u.extDefault("abstracted callee (wiring unit): " + u.ctx.funcKey(callee))
+			u.calleeAllocAny = true
 			res := u.freshResults(st, resTy)
 			// forget the heaps the callee (transitively) may write
 			hs, all := u.ctx.heapWrites(u, callee, 0)
@@ -731,6 +732,9 @@ func (u *Unit) havocAssigns(f *Frame, st *State, env *SpecEnv, con *Contract, po
 		}
 		return
 	}
+	if con.AssignsAll {
+		u.calleeAllocAny = true
+	}
 	if len(con.Assigns) > 0 || con.Allocates {
 		before := st.alloc
 		n := u.em.fresh("alloc", "Int")
@@ -738,14 +742,44 @@ func (u *Unit) havocAssigns(f *Frame, st *State, env *SpecEnv, con *Contract, po
 		st.alloc = n
 		if con.Allocates {
 			// the callee may have allocated objects: their contents are not those of the
-			// caller's heap maps at these (previously unallocated) addresses
+			// caller's heap maps at these (previously unallocated) addresses. With a typed
+			// clause (`allocates T, []U`, checked when the callee is verified: alloc-frame
+			// obligations) only the heaps of those types are concerned.
+			typed := u.allocHeapNames(con, env)
+			if typed == nil {
+				u.calleeAllocAny = true
+			} else {
+				if u.calleeAllocNames == nil {
+					u.calleeAllocNames = map[string]bool{}
+				}
+				for k, t := range typed {
+					u.calleeAllocNames[k] = true
+					if _, known := u.heapTy[k]; !known {
+						u.heapTy[k] = t
+					}
+				}
+			}
 			for _, k := range sortedKeys(u.heapTy) {
 				t := u.heapTy[k]
 				if t == nil || strings.HasPrefix(k, "M_") || strings.HasPrefix(k, "VM_") {
 					continue
 				}
-				if _, used := st.heaps[k]; !used && st.lazyAlloc == "" {
-					continue // first touched later: handled lazily in heapGet
+				if typed != nil {
+					if _, in := typed[k]; !in {
+						continue
+					}
+				}
+				if _, used := st.heaps[k]; !used {
+					// first touched later: handled lazily in heapGet
+					if typed == nil {
+						st.lazyAll = true
+					} else {
+						if st.lazySet == nil {
+							st.lazySet = map[string]bool{}
+						}
+						st.lazySet[k] = true
+					}
+					continue
 				}
 				h0 := u.heapGet(st, k, t)
 				h1 := u.em.fresh(k, u.heapSortU(k, t))
@@ -755,8 +789,8 @@ func (u *Unit) havocAssigns(f *Frame, st *State, env *SpecEnv, con *Contract, po
 				}
 				st.heaps[k] = h1
 			}
-			if st.lazyAlloc == "" {
-				st.lazyAlloc = before
+			if typed == nil {
+				st.lazyAll = true
 			}
 		}
 	}
@@ -790,6 +824,29 @@ func (u *Unit) havocAssigns(f *Frame, st *State, env *SpecEnv, con *Contract, po
 			}
 		}
 	}
+}
+
+// allocHeapNames: the heaps named by a typed allocates clause (`T` : objects of type T, `[]T` :
+// backing arrays with element type T); nil for an untyped clause.
+func (u *Unit) allocHeapNames(con *Contract, env *SpecEnv) map[string]types.Type {
+	if len(con.AllocTypes) == 0 {
+		return nil
+	}
+	out := map[string]types.Type{}
+	te := &SpecEnv{u: u, st: env.st, old: env.st, vars: map[string]Val{}, oldVars: map[string]Val{}, pkg: con.Pkg, fr: env.fr}
+	for _, x := range con.AllocTypes {
+		t := te.typeOf(x)
+		if t == nil {
+			u.errf("allocates: unknown type %s", types.ExprString(x))
+			return nil
+		}
+		if sl, ok := t.(*types.Slice); ok {
+			out[u.em.elemHeapName(sl.Elem())] = sl.Elem()
+		} else {
+			out[u.em.heapName(t)] = t
+		}
+	}
+	return out
 }
 
 // closureTerm evaluates a pure closure on symbolic arguments to an SMT term (no
